@@ -1,11 +1,13 @@
 """Stored-byte fault injector (DESIGN 2.6).  Faults are explicit JSON lists so a scenario replays
 without a PRNG: ['truncate', k], ['zero_block', pos, n], ['bitflip', pos, bit], ['overwrite', pos, hex],
-['dup_block', pos, n], ['swap_blocks', p1, p2, n], ['append', hex], ['empty'], ['foreign', kind, seed, size].
+['dup_block', pos, n], ['swap_blocks', p1, p2, n], ['append', hex], ['empty'], ['foreign', kind, seed, size],
+['stretch', pos, n, total] (the n bytes at pos repeated cyclically to total bytes: a token written with far more characters).
 Positions are drawn half uniformly, half from the producer's layout map (every header, marker and
 length field, and their boundaries +-1): faults while nothing is in flight test nothing."""
 from . import seeds
 
-KINDS = ['truncate', 'zero_block', 'bitflip', 'overwrite', 'dup_block', 'swap_blocks', 'append', 'empty', 'foreign', 'header_damage']
+KINDS = ['truncate', 'zero_block', 'bitflip', 'overwrite', 'dup_block', 'swap_blocks', 'append', 'empty', 'foreign', 'header_damage', 'value_damage',
+         'value_damage']
 
 
 def apply(by: bytes, fault) -> bytes:
@@ -38,6 +40,12 @@ def apply(by: bytes, fault) -> bytes:
         if p1 + k > p2 or p2 + k > n:
             return by
         return by[:p1] + by[p2:p2 + k] + by[p1 + k:p2] + by[p1:p1 + k] + by[p2 + k:]
+    if kind == 'stretch':
+        p, k, total = min(fault[1], n), fault[2], fault[3]
+        tok = by[p:p + k]
+        if not tok:
+            return by
+        return by[:p] + (tok * (total // len(tok) + 1))[:total] + by[p + k:]
     if kind == 'append':
         return by + bytes.fromhex(fault[1])
     if kind == 'empty':
@@ -79,6 +87,18 @@ def gen_fault(rng, by_len, fields, kinds=None):
         return ['overwrite', position(rng, n, fields), rng.rbytes(rng.wpick([(3, rng.randrange(1, 5)), (2, rng.randrange(4, 64))])).hex()]
     if kind == 'header_damage':
         return ['overwrite', rng.randrange(0, 128), rng.rbytes(rng.randrange(1, 24)).hex()]
+    if kind == 'value_damage':
+        # a stored metadata value (dimension, count, representation code, size, units ...) replaced by a boundary value: the
+        # record structure stays intact, what the conversion has accepted as its description of the data is wrong
+        vals = [f for f in fields if f[2].startswith('val')]
+        if not vals:
+            return ['zero_block', position(rng, n, fields), rng.randrange(1, 9)]
+        # numbers before text, and the description of the data (channels, frames, format specification) before the rest
+        pos, ln, name = rng.wpick([((3 if f[2].startswith('val#') else 1) * (3 if ('.CHANNEL.' in f[2] or '.FRAME.' in f[2] or '.DFSR.' in f[2]) else 1), f) for f in vals])
+        ln = max(1, min(ln, 8))
+        patch = rng.wpick([(6, b'\x00' * ln), (1, b'\xff' * ln), (1, b'\x00' * (ln - 1) + b'\x01'), (1, b'\x00' * (ln - 1) + b'\x02'),
+                           (1, b'\x7f' + b'\xff' * (ln - 1)), (1, b'\x80' + b'\x00' * (ln - 1)), (1, rng.rbytes(ln))])
+        return ['overwrite', pos, patch.hex()]
     if kind == 'dup_block':
         return ['dup_block', position(rng, n, fields), rng.wpick([(2, rng.randrange(1, 16)), (2, rng.randrange(16, 400))])]
     if kind == 'swap_blocks':
